@@ -12,11 +12,16 @@ DELIMS_ALL = [",", ":", "\t", " ", ";", "|"]
 DELIMS_C02 = [",", ":", "\t", " "]
 DELIMS_C03 = [",", "\t", " "]
 
-SF_CREATE = ["sfile.write", "sfile.write_swapped", "SFile.ctx", "io.write"]
-RAW_CREATE = ["recfile.write", "Recfile.ctx", "recfile.Open"]
-SF_READ = ["sfile.read", "sfile.read_hdr", "SFile.read", "SFile.getitem", "SFile.nocontext", "io.read",
-           "io.read_hdr", "Recfile.offset", "Recfile.offset_count", "recfile.read.offset", "io.read_dtype_offset"]
-RAW_READ = ["recfile.read", "recfile.read_nrows", "Recfile.read", "Recfile.getitem", "Recfile.descr", "io.read_dtype"]
+# "*.reused": one long-lived SFile / Recfile object per caller, re-open()ed for every file it touches
+# (writes and reads alike, closed or left open in between); listed twice to make repeated use likely
+SF_CREATE = ["sfile.write", "sfile.write_swapped", "SFile.ctx", "io.write", "SFile.reused", "SFile.reused"]
+RAW_CREATE = ["recfile.write", "Recfile.ctx", "recfile.Open", "Recfile.reused", "Recfile.reused"]
+SF_READ_BASIC = ["sfile.read", "sfile.read_hdr", "SFile.read", "SFile.getitem", "SFile.nocontext", "io.read",
+                 "io.read_hdr", "SFile.reused", "SFile.reused"]
+SF_READ = SF_READ_BASIC + ["Recfile.offset", "Recfile.offset_count", "recfile.read.offset", "io.read_dtype_offset",
+                           "Recfile.reused.offset"]
+RAW_READ = ["recfile.read", "recfile.read_nrows", "Recfile.read", "Recfile.getitem", "Recfile.descr", "io.read_dtype",
+            "Recfile.reused", "Recfile.reused"]
 HDR_READ = ["sfile.read_header", "io.read_header", "io.read_header_only", "SFile.read_header"]
 
 
@@ -111,8 +116,27 @@ def caller_roundtrip(r, pfx, form, avoid, delims):
                         "hdr": None})
         tab = draw_table(r, form, delim)
         hdr = T.gen_header(r) if fform == "sfile" else None
-        ops.append({"k": "create", "p": p, "form": fform, "delim": delim,
-                    "entry": pick(r, SF_CREATE if fform == "sfile" else RAW_CREATE), "tab": tab, "hdr": hdr})
+        if form == "txt" and chance(r, 0.25):
+            # C04: the table reaches the file in several blocks through ONE writer handle, later blocks in
+            # the same or the other byte order (a text file is byte-order free)
+            h = "%sw%d" % (pfx, len(ops))
+            ops.append({"k": "open_w", "h": h, "p": p, "kind": "SFile" if fform == "sfile" else "Recfile",
+                        "mode": "w", "delim": delim})
+            ops.append({"k": "write", "h": h, "tab": tab, "hdr": hdr})
+            for _ in range(r.randrange(1, 3)):
+                f = tab["fields"] if chance(r, 0.35) else other_order(tab["fields"])
+                ops.append({"k": "write", "h": h, "tab": {"fields": f, "nrows": draw_nrows(r, small=True),
+                                                          "dseed": r.randrange(1 << 30)}, "hdr": None})
+            ops.append({"k": "close", "h": h})
+        else:
+            ops.append({"k": "create", "p": p, "form": fform, "delim": delim,
+                        "entry": pick(r, SF_CREATE if fform == "sfile" else RAW_CREATE), "tab": tab, "hdr": hdr})
+            if form == "txt" and chance(r, 0.2):
+                f = tab["fields"] if chance(r, 0.35) else other_order(tab["fields"])
+                ents = ["sfile.write.append", "io.write.append", "SFile.r+"] if fform == "sfile" else ["Recfile.r+", "recfile.write.r+"]
+                ops.append({"k": "append", "p": p, "entry": pick(r, ents), "delim": delim,
+                            "tab": {"fields": f, "nrows": draw_nrows(r, small=True), "dseed": r.randrange(1 << 30)},
+                            "hdr": None})
         for _ in range(r.randrange(1, 5)):
             if fform == "sfile" and chance(r, 0.25):
                 ops.append({"k": "header", "p": p, "entry": pick(r, HDR_READ)})
@@ -357,12 +381,12 @@ def caller_history(r, pfx, avoid):
         elif x < 0.82 and s["form"] == "sfile":
             ops.append({"k": "header", "p": p, "entry": pick(r, HDR_READ)})
         else:
-            ops.append({"k": "read", "p": p, "entry": pick(r, SF_READ[:7] if s["form"] == "sfile" else RAW_READ)})
+            ops.append({"k": "read", "p": p, "entry": pick(r, SF_READ_BASIC if s["form"] == "sfile" else RAW_READ)})
     for p in sorted(state):
         s = state[p]
         if s["h"] is not None:
             ops.append({"k": "close", "h": s["h"]})
-        ops.append({"k": "read", "p": p, "entry": pick(r, SF_READ[:7] if s["form"] == "sfile" else RAW_READ)})
+        ops.append({"k": "read", "p": p, "entry": pick(r, SF_READ_BASIC if s["form"] == "sfile" else RAW_READ)})
         if s["form"] == "sfile":
             ops.append({"k": "header", "p": p, "entry": pick(r, HDR_READ)})
     return ops
@@ -387,16 +411,31 @@ def caller_own(r, pfx, avoid):
 
         def pres():
             return present.draw(r, allow_convert=False)
+
+        def wopts():
+            # option combinations that select another internal path of the text writer
+            if not txt or not chance(r, 0.5):
+                return None
+            o = {}
+            if chance(r, 0.6):
+                o["padnull"] = True
+            if chance(r, 0.3):
+                o["ignorenull"] = True
+            if fform == "raw" and chance(r, 0.3):
+                o["bracket_arrays"] = True
+            return o or None
         ops.append({"k": "create", "p": p, "form": fform, "delim": delim,
                     "entry": pick(r, SF_CREATE if fform == "sfile" else RAW_CREATE), "tab": tab(),
-                    "hdr": None, "present": pres()})
+                    "hdr": None, "present": pres(), "wopts": wopts()})
         for _ in range(r.randrange(0, 3)):
             if chance(r, 0.5):
                 ents = ["sfile.write.append", "io.write.append", "SFile.r+"] if fform == "sfile" else ["Recfile.r+", "recfile.write.r+"]
-                ops.append({"k": "append", "p": p, "entry": pick(r, ents), "delim": delim, "tab": tab(), "present": pres()})
+                ops.append({"k": "append", "p": p, "entry": pick(r, ents), "delim": delim, "tab": tab(), "present": pres(),
+                            "wopts": wopts()})
             else:
                 h = "%sw%d_%d" % (pfx, j, len(ops))
-                ops.append({"k": "open_w", "h": h, "p": p, "kind": "SFile" if fform == "sfile" else "Recfile", "mode": "r+"})
+                ops.append({"k": "open_w", "h": h, "p": p, "kind": "SFile" if fform == "sfile" else "Recfile", "mode": "r+",
+                            "wopts": wopts()})
                 ops.append({"k": "write", "h": h, "tab": tab(), "present": pres()})
                 ops.append({"k": "close", "h": h})
     return ops
